@@ -24,7 +24,7 @@ CLAIM = ['C03', 'C04', 'C05', 'C06', 'C10', 'C11', 'C12', 'C13', 'C14']
 LEVEL_TEXT = {
     'C04': 'Seeded search over complete simulated daemon life-cycles (real echsd.c under a virtual-time libev model): add/replace/cancel histories, late and exact wake-ups, stalls past several occurrences, executor exits landing in the same loop iteration as expiries, restarts. Every run is checked against an independent model (occurrence times computed with timegm arithmetic). A clean batch is evidence, not proof; exploration is the honest level for a property quantified over schedules and histories.',
     'C11': 'Seeded search over request histories of 2-5 peers (incl. root) with colliding task hashes, foreign-UID adds, owner/setuid spoofing, cancels, listings, 33-90 concurrently open connections, hang-ups and restarts; every reply, listing, checkpoint and executor request is checked against a per-user map model.',
-    'C12': 'Seeded search over executor-lifetime patterns relative to the recurrence period, exit-notification delays, batching of exits and expiries, several limited and unlimited tasks in one daemon, restarts; true concurrency is known to the simulator, so the bound is checked exactly at every spawn.',
+    'C12': 'Seeded search over executor-lifetime patterns relative to the recurrence period, exit-notification delays, batching of exits and expiries, several limited and unlimited tasks in one daemon, restarts, executors stopped and continued in mid-run (job control); true concurrency is known to the simulator, so the bound is checked exactly at every spawn.',
 }
 LEVEL_TEXT['C05'] = ('Two seeded campaigns. (1) simd: every task field and COUNT/UNTIL/INTERVAL arithmetic through user file -> real echsq -> real echsd '
                      '-> checkpoint -> crash/restart -> executor request, with k occurrences consumed in between, against independently computed expectations. '
